@@ -822,6 +822,8 @@ def stage_lin(ctx, st):
         args.append("-gated")
     if st.get("raw"):
         args.append("-raw")
+    if st.get("family"):
+        args += ["-family", st["family"]]
     if st.get("sched") or st.get("sched_sim"):
         # behaviours of CloverConc generated by TLC, replayed on the real code with gates at the
         # store's Begin and Commit / Rollback.  Exhaustive emissions are cached (they depend on spec/
